@@ -7,7 +7,9 @@ package e1
 import (
 	"crypto/sha256"
 	"fmt"
+	"runtime"
 	"runtime/debug"
+	"strings"
 	"sync"
 	"sync/atomic"
 	"time"
@@ -68,10 +70,81 @@ func Names(alpha []Call, path []int) []string {
 // panic value and the stack) instead of letting it end the process; the engine of that path is abandoned.
 var OnPanic func(calls []string, p interface{}, stack string)
 
-// HangTimeout bounds one guarded step. A call that does not return within it (a writer slot that was never given
-// back makes the next write wait for lungo's own one-minute timeout, a lock taken twice waits forever) is reported
-// through OnPanic as a violation and its engine is abandoned.
-var HangTimeout = 20 * time.Second
+// HangTimeout is the time after which a guarded step that has not returned is looked at. The verdict "hang" does not
+// rest on the clock: the goroutine of the step is sampled (runtime.Stack) every HangSample, and the step is reported
+// (through OnPanic, its engine abandoned) only when HangSamples consecutive samples show it blocked — not running,
+// not runnable — with an identical stack: a lock taken twice, a writer slot that was never given back (the next
+// write sits in lungo's one-minute token wait). A step that is merely slow on a loaded machine keeps changing its
+// stack or is runnable and is waited for; HangCap bounds a step that keeps running without ever returning.
+var (
+	HangTimeout = 20 * time.Second
+	HangSample  = 10 * time.Second
+	HangSamples = 4
+	HangCap     = 15 * time.Minute
+)
+
+// hung is set by the first hang verdict: a call that never returns is fatal for the search (every later step through
+// the same code would wait for the watchdog again), so every search of the process stops there and reports
+// exhaustive=false next to the violation.
+var hung int32
+
+// Hung reports whether a guarded step has been found hanging.
+func Hung() bool { return atomic.LoadInt32(&hung) == 1 }
+
+func withHung(stop func() bool) func() bool {
+	return func() bool { return Hung() || (stop != nil && stop()) }
+}
+
+// SlowSteps counts the steps that outlived HangTimeout and returned later (evidence of load, not of a defect).
+var SlowSteps int64
+
+func goroutineID() string {
+	buf := make([]byte, 64)
+	buf = buf[:runtime.Stack(buf, false)]
+	f := strings.Fields(string(buf))
+	if len(f) >= 2 {
+		return f[1]
+	}
+	return ""
+}
+
+// goroutineState returns the scheduler state and the stack of the goroutine with the given id ("" if it is gone).
+func goroutineState(id string) (state, stack string) {
+	buf := make([]byte, 1<<20)
+	for {
+		n := runtime.Stack(buf, true)
+		if n < len(buf) {
+			buf = buf[:n]
+			break
+		}
+		buf = make([]byte, 2*len(buf))
+	}
+	head := "goroutine " + id + " ["
+	text := string(buf)
+	i := strings.Index(text, "\n"+head)
+	if strings.HasPrefix(text, head) {
+		i = 0
+	} else if i >= 0 {
+		i++
+	}
+	if i < 0 {
+		return "", ""
+	}
+	rest := text[i:]
+	if j := strings.Index(rest, "\n\n"); j >= 0 {
+		rest = rest[:j]
+	}
+	line := rest
+	if j := strings.Index(rest, "\n"); j >= 0 {
+		line, stack = rest[:j], rest[j+1:]
+	}
+	state = strings.TrimSuffix(strings.TrimPrefix(line, head), "]:")
+	// "select, 2 minutes" -> "select"
+	if j := strings.Index(state, ","); j >= 0 {
+		state = state[:j]
+	}
+	return state, stack
+}
 
 func guard(names []string, fn func(), dyn ...*[]string) (failed bool) {
 	if OnPanic == nil {
@@ -79,7 +152,9 @@ func guard(names []string, fn func(), dyn ...*[]string) (failed bool) {
 		return false
 	}
 	done := make(chan bool, 1)
+	gid := make(chan string, 1)
 	go func() {
+		gid <- goroutineID()
 		defer func() {
 			if p := recover(); p != nil {
 				if len(dyn) > 0 {
@@ -92,20 +167,49 @@ func guard(names []string, fn func(), dyn ...*[]string) (failed bool) {
 		fn()
 		done <- false
 	}()
+	id := <-gid
 	select {
 	case failed = <-done:
 		return failed
 	case <-time.After(HangTimeout):
-		if len(dyn) > 0 {
-			names = append([]string{}, (*dyn[0])...)
+	}
+	started := time.Now()
+	same, lastState, lastStack := 0, "", ""
+	for {
+		state, stack := goroutineState(id)
+		blocked := state != "" && state != "running" && state != "runnable" && !strings.HasPrefix(state, "syscall")
+		if blocked && state == lastState && stack == lastStack {
+			same++
+		} else if blocked {
+			same = 1
+		} else {
+			same = 0
 		}
-		OnPanic(names, fmt.Sprintf("the step did not return within %v", HangTimeout), "(the goroutine is abandoned)")
-		return true
+		lastState, lastStack = state, stack
+		if same >= HangSamples || time.Since(started) > HangCap {
+			if len(dyn) > 0 {
+				names = append([]string{}, (*dyn[0])...)
+			}
+			what := fmt.Sprintf("the step did not return: its goroutine has been blocked (%s) at the same place for %v", state, time.Duration(same-1)*HangSample+HangTimeout)
+			if same < HangSamples {
+				what = fmt.Sprintf("the step is still running after %v", HangCap+HangTimeout)
+			}
+			atomic.StoreInt32(&hung, 1)
+			OnPanic(names, what, "(the goroutine is abandoned)\n"+stack)
+			return true
+		}
+		select {
+		case failed = <-done:
+			atomic.AddInt64(&SlowSteps, 1)
+			return failed
+		case <-time.After(HangSample):
+		}
 	}
 }
 
 // BFS explores all call sequences up to Depth with state deduplication.
 func BFS(cfg Config) *Stats {
+	cfg.Stop = withHung(cfg.Stop)
 	if cfg.New == nil {
 		cfg.New = func() *world.World { return world.New() }
 	}
@@ -225,6 +329,7 @@ func Paths(nActions, depth int, newRunner func() Runner, stop func() bool) *Path
 // PathsFrom is Paths restricted to sequences that start with fixed (the sequence
 // length is still depth, so len(fixed) actions are given and the rest is free).
 func PathsFrom(fixed []int, nActions, depth int, newRunner func() Runner, stop func() bool) *PathStats {
+	stop = withHung(stop)
 	ps := &PathStats{Exhaustive: true}
 	var shards [][]int
 	if len(fixed) > 0 {
